@@ -2,6 +2,10 @@ import gfapy
 
 class Validation:
   def _validate_lists_size(self):
+    if gfapy.is_placeholder(self.overlaps) and \
+        not isinstance(self.overlaps, list):
+      # a placeholder object given instead of the list: same as the list ["*"]
+      return True
     n_overlaps = len(self.overlaps)
     n_segments = len(self.segment_names)
     if n_overlaps == n_segments - 1:
